@@ -37,6 +37,11 @@ use clipboard::*;
 
 mod dynamic_macro;
 use dynamic_macro::*;
+/// Re-export of the dynamic macro functions for the verification harness.
+#[cfg(jtroo_kanata_verif)]
+pub mod verif_dynamic_macro {
+    pub use super::dynamic_macro::*;
+}
 
 mod key_repeat;
 
